@@ -61,7 +61,19 @@ type Lemma struct {
 	Text  string
 	File  string
 	Pkg   string
-	Using []string // preludes
+	Steps []LemmaStep
+}
+
+// LemmaStep is one line of a lemma script: vars / call / assume / show.
+type LemmaStep struct {
+	Kind    string // vars call assume show
+	Vars    []QVar
+	Results []string
+	Callee  string
+	Args    []*Expr
+	E       *Expr
+	Text    string
+	Line    int
 }
 
 type ContractSet struct {
@@ -87,7 +99,7 @@ type GhostDecl struct {
 var clauseKw = map[string]bool{
 	"func": true, "extern": true, "requires": true, "ensures": true, "nopanic": true, "modifies": true,
 	"pure": true, "inline": true, "loop": true, "let": true, "assume": true, "trusted": true, "prelude": true,
-	"lemma": true, "panics_unless": true, "props": true, "ghost": true, "end": true, "modifies_ptr": true, "kvstore": true, "hint": true,
+	"lemma": true, "panics_unless": true, "props": true, "ghost": true, "end": true, "modifies_ptr": true, "kvstore": true, "hint": true, "vars": true, "call": true, "show": true,
 }
 
 var labelRe = regexp.MustCompile(`^@([A-Za-z0-9_\-]+)\s*`)
@@ -164,6 +176,7 @@ func (cs *ContractSet) LoadFile(path, pkg string) error {
 		}
 	}
 	var cur *Contract
+	var curLemma *Lemma
 	for _, l := range ll {
 		fields := strings.Fields(l.text)
 		kw := strings.TrimSuffix(fields[0], ":")
@@ -180,6 +193,7 @@ func (cs *ContractSet) LoadFile(path, pkg string) error {
 			}
 			c.File, c.Line = path, l.line
 			cur = c
+			curLemma = nil
 			if strings.HasPrefix(c.Key, "*") {
 				cs.Suffix = append(cs.Suffix, c)
 			} else {
@@ -202,24 +216,37 @@ func (cs *ContractSet) LoadFile(path, pkg string) error {
 		case "lemma":
 			// lemma name [props]: expr
 			idx := strings.Index(rest, ":")
-			if idx < 0 {
-				return fmt.Errorf("%s: lemma needs name:", where)
+			head, body := rest, ""
+			if idx >= 0 {
+				head = strings.TrimSpace(rest[:idx])
+				body = strings.TrimSpace(rest[idx+1:])
 			}
-			head := strings.TrimSpace(rest[:idx])
-			body := strings.TrimSpace(rest[idx+1:])
 			lm := &Lemma{File: path, Pkg: pkg, Text: body}
 			hf := strings.Fields(head)
 			lm.Name = hf[0]
 			if m := propsRe.FindStringSubmatch(strings.TrimSpace(head[len(hf[0]):]) + " "); m != nil {
 				lm.Props = splitProps(m[1])
 			}
-			e, err := ParseExpr(body)
-			if err != nil {
-				return fmt.Errorf("%s: %v", where, err)
+			if body != "" {
+				e, err := ParseExpr(body)
+				if err != nil {
+					return fmt.Errorf("%s: %v", where, err)
+				}
+				lm.E = e
 			}
-			lm.E = e
 			cs.Lemmas = append(cs.Lemmas, lm)
+			curLemma = lm
+			cur = nil
 		default:
+			if curLemma != nil && (kw == "vars" || kw == "call" || kw == "assume" || kw == "show") {
+				st, err := parseLemmaStep(kw, rest, where)
+				if err != nil {
+					return err
+				}
+				st.Line = l.line
+				curLemma.Steps = append(curLemma.Steps, *st)
+				continue
+			}
 			if cur == nil {
 				return fmt.Errorf("%s: clause %q outside a func", where, kw)
 			}
@@ -488,4 +515,43 @@ func FindContractFiles(root, module string) (map[string]string, error) {
 		return nil
 	})
 	return out, err
+}
+
+func parseLemmaStep(kw, rest, where string) (*LemmaStep, error) {
+	st := &LemmaStep{Kind: kw, Text: rest}
+	switch kw {
+	case "vars":
+		for _, part := range strings.Split(rest, ",") {
+			f := strings.Fields(part)
+			if len(f) != 2 {
+				return nil, fmt.Errorf("%s: vars needs 'name Type' pairs", where)
+			}
+			st.Vars = append(st.Vars, QVar{f[0], f[1]})
+		}
+	case "assume", "show":
+		e, err := ParseExpr(rest)
+		if err != nil {
+			return nil, fmt.Errorf("%s: %v", where, err)
+		}
+		st.E = e
+	case "call":
+		idx := strings.Index(rest, ":=")
+		if idx < 0 {
+			return nil, fmt.Errorf("%s: call needs :=", where)
+		}
+		lhs := strings.Trim(strings.TrimSpace(rest[:idx]), "()")
+		for _, r := range strings.Split(lhs, ",") {
+			st.Results = append(st.Results, strings.TrimSpace(r))
+		}
+		e, err := ParseExpr(strings.TrimSpace(rest[idx+2:]))
+		if err != nil {
+			return nil, fmt.Errorf("%s: %v", where, err)
+		}
+		if e.Kind != "call" {
+			return nil, fmt.Errorf("%s: call needs F(args)", where)
+		}
+		st.Callee = e.Tok
+		st.Args = e.Args
+	}
+	return st, nil
 }
